@@ -39,8 +39,9 @@ CLAIMED["C20"] = ("translation_validation", "close / reopen / LoadVersion of eve
 
 CLAIMED["C16"] = ("translation_validation", "legacy databases are written by the real legacy library (iavl v0.20.0, the version cmd/legacydump pins) from generated histories with and without legacy-side deletions; the current library opens them and every legacy version's contents and root hash, new commits on top, commits without writes on a legacy root, pruning below/at/above the boundary, rollback into the legacy range and reopenings are compared with the model's predictions; legacy codec round trips proved; K24 (converted-root key clash) recorded", "5.C16", "legacy library as producer + current library vs the Lean model on generated histories")
 
+CLAIMED["C06"] = ("exploration", "PARTIAL. Proved on the model: committed versions are values untouched by later writes, commits and deletions of other versions. Searched on the implementation, not proved: (a) yield-point schedules - every commit and deletion of every generated history is parked at each protocol boundary (before/after the batch commit, after the reader check and after each per-version step of pruning) while every other committed version is read through the reader API and compared with the reads taken before the operation; export-pin checks; (b) 4 readers against 1 writer under the Go race detector (sync and async pruning, cache on/off, fast index on/off). Data-race freedom and interleavings below yield-point granularity cannot be carried by the Lean model", "5.C06", "yield-point schedule exploration + race detector; Lean lemma on immutability of committed versions")
+
 NA = {
- "C06": "check not built yet (schedule exploration through the verif yield hooks is planned, DESIGN 5.C06)",
 }
 
 
